@@ -150,74 +150,141 @@ func checkC10(w *World, r *Report) {
 	checkParentCallContext(w, r)
 
 	// ---- R10.2
-	ext := w.ssaFunc(w.method("ExtendsNode", "Render"))
-	ctxParam := ext.Params[2]
-	// the nested render: an invoke/call that receives a *RenderContext other than the parameter
+	// the function that renders the parent: ExtendsNode.Render itself or a helper it calls
+	// (statically, within the package) that receives the child's context, derives the parent's
+	// context and invokes Render with it
+	root := w.ssaFunc(w.method("ExtendsNode", "Render"))
+	var ext *ssa.Function
+	var ctxParam *ssa.Parameter
 	var nested ssa.Instruction
 	var parentCtx ssa.Value
-	instrsOf(ext, func(in ssa.Instruction) {
-		c, ok := in.(ssa.CallInstruction)
-		if !ok {
-			return
-		}
-		f := calleeFunc(c)
-		if f == nil || f.Name() != "Render" {
-			return
-		}
-		for _, a := range c.Common().Args {
-			if isNamed(a.Type(), twigPath, "RenderContext") && a != ctxParam {
-				nested, parentCtx = in, a
+	queue := []*ssa.Function{root}
+	visited := map[*ssa.Function]bool{root: true}
+	for depth := 0; depth < 4 && nested == nil; depth++ {
+		var next []*ssa.Function
+		for _, f := range queue {
+			var cp *ssa.Parameter
+			for _, p := range f.Params {
+				if isNamed(p.Type(), twigPath, "RenderContext") {
+					cp = p
+				}
 			}
+			if cp != nil && nested == nil {
+				instrsOf(f, func(in ssa.Instruction) {
+					c, ok := in.(ssa.CallInstruction)
+					if !ok {
+						return
+					}
+					cf := calleeFunc(c)
+					if cf == nil || cf.Name() != "Render" || !c.Common().IsInvoke() {
+						return
+					}
+					for _, a := range c.Common().Args {
+						if isNamed(a.Type(), twigPath, "RenderContext") && a != ssa.Value(cp) {
+							ext, ctxParam, nested, parentCtx = f, cp, in, a
+						}
+					}
+				})
+			}
+			instrsOf(f, func(in ssa.Instruction) {
+				if c, ok := in.(ssa.CallInstruction); ok {
+					if g := c.Common().StaticCallee(); g != nil && g.Pkg != nil && g.Pkg.Pkg.Path() == twigPath && !visited[g] && len(g.Blocks) > 0 {
+						visited[g] = true
+						next = append(next, g)
+					}
+				}
+			})
 		}
-	})
+		queue = next
+	}
 	if nested == nil {
-		cannotDecide("R10.2: no nested Render with a derived context found in ExtendsNode.Render")
+		cannotDecide("R10.2: no nested Render with a derived context found in ExtendsNode.Render or the helpers it calls")
 	}
 	for _, field := range []string{"blocks", "parentBlocks"} {
 		construct := "hand-over of ctx." + field + " to the parent's context"
-		// a MapUpdate into load(parentCtx.field) whose value/key come from a range over load(ctx.field)
-		gen := func(in ssa.Instruction) bool {
-			mu, ok := in.(*ssa.MapUpdate)
-			if !ok {
-				return false
+		how := copiesField(ext, ctxParam, parentCtx, field, func(b *ssa.BasicBlock, in ssa.Instruction) bool {
+			if b == nested.Block() {
+				return in == nil || instrIndex(in) < instrIndex(nested)
 			}
-			base, ok := fieldLoad(mu.Map, "RenderContext", field)
-			return ok && base == parentCtx
-		}
-		// source check: some range over ctx.<field>
-		srcOK := false
-		instrsOf(ext, func(in ssa.Instruction) {
-			if rg, ok := in.(*ssa.Range); ok {
-				if base, ok := fieldLoad(rg.X, "RenderContext", field); ok && base == ctxParam {
-					srcOK = true
-				}
-			}
-		})
-		has := false
-		instrsOf(ext, func(in ssa.Instruction) {
-			if gen(in) {
-				has = true
-			}
-		})
-		// the copy loop must be on every path to the nested render: the Range instruction over
-		// ctx.<field> dominates the nested render
-		dominated := false
-		instrsOf(ext, func(in ssa.Instruction) {
-			if rg, ok := in.(*ssa.Range); ok {
-				if base, ok := fieldLoad(rg.X, "RenderContext", field); ok && base == ctxParam {
-					if rg.Block().Dominates(nested.Block()) {
-						dominated = true
-					}
-				}
-			}
-		})
-		switch {
-		case has && srcOK && dominated:
-			r.ok("R10.2", ssaName(ext), construct, w.posOf(nested.Pos()), "copy loop over the child's map into the parent's map dominates the nested Render", true)
-		default:
-			r.bad("R10.2", ssaName(ext), construct, w.posOf(nested.Pos()), fmt.Sprintf("the parent template is rendered without the child's %s on some path (copy present=%v, from child ctx=%v, dominates nested render=%v): overrides or parent() bodies are lost along the extends chain", field, has, srcOK, dominated))
+			return b.Dominates(nested.Block())
+		}, 0)
+		if how != "" {
+			r.ok("R10.2", ssaName(ext), construct, w.posOf(nested.Pos()), how+" dominates the nested Render", true)
+		} else {
+			r.bad("R10.2", ssaName(ext), construct, w.posOf(nested.Pos()), fmt.Sprintf("the parent template is rendered without the child's %s on some path (no copy loop from the child's map into the parent context's map — here or in a helper called with both contexts — dominates the nested Render): overrides or parent() bodies are lost along the extends chain", field))
 		}
 	}
+}
+
+func instrIndex(in ssa.Instruction) int {
+	for i, x := range in.Block().Instrs {
+		if x == in {
+			return i
+		}
+	}
+	return -1
+}
+
+// copiesField: fn copies src.<field> into dst.<field> (range over the one, map update into the
+// other) at a place accepted by `before` — directly, or through a helper of the package that is
+// called there with both contexts and performs the copy on every path to its returns.
+func copiesField(fn *ssa.Function, src, dst ssa.Value, field string, before func(b *ssa.BasicBlock, in ssa.Instruction) bool, depth int) string {
+	hasUpdate := false
+	instrsOf(fn, func(in ssa.Instruction) {
+		if mu, ok := in.(*ssa.MapUpdate); ok {
+			if base, ok := fieldLoad(mu.Map, "RenderContext", field); ok && sameValue(base, dst) {
+				hasUpdate = true
+			}
+		}
+	})
+	found := ""
+	instrsOf(fn, func(in ssa.Instruction) {
+		if found != "" {
+			return
+		}
+		switch x := in.(type) {
+		case *ssa.Range:
+			if base, ok := fieldLoad(x.X, "RenderContext", field); ok && sameValue(base, src) && hasUpdate && before(x.Block(), nil) {
+				found = "copy loop over the child's map into the parent's map"
+			}
+		case *ssa.Call:
+			h := x.Call.StaticCallee()
+			if h == nil || depth > 2 || h.Pkg == nil || h.Pkg.Pkg.Path() != twigPath || len(h.Blocks) == 0 || !before(x.Block(), x) {
+				return
+			}
+			si, di := -1, -1
+			for i, a := range x.Call.Args {
+				if sameValue(a, src) {
+					si = i
+				}
+				if sameValue(a, dst) {
+					di = i
+				}
+			}
+			if si < 0 || di < 0 || si >= len(h.Params) || di >= len(h.Params) {
+				return
+			}
+			// inside the helper the copy must lie on every path to a return
+			var rets []*ssa.BasicBlock
+			instrsOf(h, func(hi ssa.Instruction) {
+				if _, ok := hi.(*ssa.Return); ok {
+					rets = append(rets, hi.Block())
+				}
+			})
+			inner := copiesField(h, h.Params[si], h.Params[di], field, func(b *ssa.BasicBlock, _ ssa.Instruction) bool {
+				for _, rb := range rets {
+					if b != rb && !b.Dominates(rb) {
+						return false
+					}
+				}
+				return len(rets) > 0
+			}, depth+1)
+			if inner != "" {
+				found = "call of " + h.Name() + " (" + inner + " on every path)"
+			}
+		}
+	})
+	return found
 }
 
 // checkParentCallContext (R10.3): a function that renders a body taken from parentBlocks in a
